@@ -222,6 +222,24 @@ def eq_ok(o, L, cls):
             return 'eq_plain_mapping_other_key'
     if o == 5 or o == [(1, 2)]:
         return 'eq_non_mapping'
+    # a mapping that creates missing keys on lookup: with one key replaced it must compare unequal and stay untouched
+    if keys:
+        import collections
+        k0 = keys[0]
+        dd = collections.defaultdict(lambda: m_last(L, k0))
+        for k in keys[1:]:
+            dd[k] = m_last(L, k)
+        dd[K(78)] = 0
+        before = len(dd)
+        if o == dd or not (o != dd):
+            return 'eq_defaultdict_other_key'
+        if len(dd) != before:
+            return 'eq_mutated_the_other_mapping'
+    # one extra pair whose key AND value are None under an existing None key (no internal filler may stand in for it)
+    base = list(L) + [(None, None)]
+    one, two = cls(base), cls(base + [(None, None)])
+    if one == two or two == one or not (one != two):
+        return 'eq_none_none_pair'
     return None
 
 
@@ -352,6 +370,9 @@ def apply_op(o, L, cls, name, kk, v, kk2, v2, kind, nv):
             arg = cls(pairs)
         else:
             arg = iter(pairs)
+        if nv == 2 and kind == 2:
+            o.update_extend(arg, kwa=v)       # keyword arguments are appended after the positional source
+            return None, L + pairs + [('kwa', v)]
         o.update_extend(arg)
         return None, L + pairs
     if name == 'setdefault':
@@ -481,6 +502,9 @@ def apply_op(o, L, cls, name, kk, v, kk2, v2, kind, nv):
         if kind == 0:
             o.update(o)
             return None, L
+        if kind == 1:
+            o.update(o, kwa=v)                # E is self: nothing to merge, the keyword still applies
+            return None, m_update(L, [('kwa', v)])
         o.update_extend(o)
         keys = m_keys(L)
         return None, L + [(k, m_last(L, k)) for k in keys]
